@@ -82,9 +82,11 @@ def get_evaluable_architecture(
             convert_partial_match_to_regex(pattern) for pattern in external_exclusions
         )
 
-    # '..' components are resolved first: otherwise a module path outside of the root path would not be recognised as such
-    root_as_path = Path(os.path.normpath(root_path))
-    module_as_path = Path(os.path.normpath(module_path))
+    # both paths are made absolute (which also resolves '..' components) first: otherwise a module path outside of
+    # the root path would not be recognised as such, and the name of the root module would depend on how the path
+    # is spelt ('.' has no name) instead of on the directory it points to
+    root_as_path = Path(os.path.abspath(root_path))
+    module_as_path = Path(os.path.abspath(module_path))
 
     path_diff_between_root_and_module = str(
         module_as_path.relative_to(root_as_path)
